@@ -78,6 +78,7 @@ def run(ctx):
         check_arm_purity(ctx, "E2-A", P, [f])
         SP.check_variant_preserved(ctx, "E2.variant", P, f, "MultiSignature", min_variants=2)
         allow_skip = {(fk, "skip"): "skip(1): element 0 is added separately on the exits"} if (cov == ["tail1"] and len(adds0) >= 1) else {}
+        allow_skip[(fk, "windows")] = "windows(2): adjacent pairs compared (scheme consistency; validated by E4.scheme)"
         F.check_no_dropping_adapters(ctx, "E7.adapters", P, [fk], allow=allow_skip)
         # message augmentation refusal
         oks = R.ok_blocks(f)
@@ -156,9 +157,16 @@ def run(ctx):
                                 per_elem = True
         first_ok = True
         for b in oks:
+            # variants of the first element still possible at this exit: the intersection of what every dominating switch
+            # on it admits (an exit behind `matches!(sigs[0], MessageAugmentation(_)) => Err` keeps its arm in a later
+            # `match sigs[0]`, but no MessageAugmentation value reaches it)
+            poss = {}
             for adt, var, src, dsc in __import__("analysis.rules.common", fromlist=["scheme_context"]).scheme_context(P, f, b):
-                if adt == "Signature" and "index" in dsc and (var == "MessageAugmentation" or (isinstance(var, tuple) and "MessageAugmentation" in var)):
-                    first_ok = False
+                if adt == "Signature" and "index" in dsc:
+                    vs = set(var) if isinstance(var, tuple) else {var}
+                    poss[dsc] = (poss[dsc] & vs) if dsc in poss else vs
+            if any("MessageAugmentation" in vs for vs in poss.values()):
+                first_ok = False
         ok = bool(per_elem) or first_ok
         ctx.ob("E4.aug-refused", fk, ok, "message-augmentation inputs are refused: per-element MessageAugmentation arm reaches only Err exits=%s; no success exit under a MessageAugmentation first element=%s" % (per_elem, first_ok), where=where(f))
     # accumulators
